@@ -11,7 +11,7 @@ type checkMetaT struct {
 
 var realA = []string{"pkg/proxyserver", "pkg/hack", "pkg/metadata", "pkg/fingerprint", "pkg/ja3", "pkg/ja4", "pkg/reverseproxy", "pkg/http2 (server, framer, flow control, write schedulers)", "fingerproxy.go/flags.go wiring (through injected accessor VerifBuild)", "pkg/certwatcher (initial load only)", "crypto/tls", "net/http", "net/http/httputil", "tlsx", "utls"}
 var stubA = []string{"network (simnet: in-flight queues, controller-decided delivery, segmentation, FIN/RST, injected I/O errors)", "clock (testing/synctest bubble)", "goroutine wake-up order (one controller decision at a time at quiescence)", "clients (utls handshake + scripted raw HTTP/1.1 bytes / raw HTTP/2 frames)", "back-end (net/http server with recording handler on a simulated listener)", "OS signal (context cancel)"}
-var assumeA = []string{"go1.26.8 standard library (testing/synctest) instead of the toolchain the binary ships with", "TCP back-pressure is not simulated (writes never block)", "scheduling is cooperative: interleavings are explored at I/O, callback and fence points only", "sampling, not proof"}
+var assumeA = []string{"go1.26.8 standard library (testing/synctest) instead of the toolchain the binary ships with", "TCP back-pressure is not simulated (writes never block)", "scheduling is cooperative: interleavings are explored at I/O, callback and fence points only", "worker runtime patched by -overlay (worker binary only): select / map / timer tie-breaks from the seeded stream, no time-sliced preemption, lock waits count as blocked for quiescence, no real-time dependent sync.Mutex starvation mode - every resulting execution is one the stock runtime can produce", "sampling, not proof"}
 
 var checkMeta = map[string]checkMetaT{}
 
